@@ -181,10 +181,10 @@ func checkC08(c *Ctx, w *World) {
 				why = append(why, "writes "+strings.Join(keys(t.Writes), ","))
 			}
 			// nil only for an empty snapshot
-			lz := eqAtom("empty", func(v ssa.Value) bool {
+			lz := lenZeroAtom("empty", func(v ssa.Value) bool {
 				call, ok := stripConv(v).(*ssa.Call)
 				return ok && calleeOf(&call.Call).Builtin == "len" && isLoadOf(call.Call.Args[0], "gcpPicker.scRefs")
-			}, constIs(0))
+			})
 			mcs := newCondSpace(callee[0], recOf(lz), "empty")
 			for _, r := range returnsOf(callee[0]) {
 				if _, onlyNil, ok := slotOrigin(r.Results[0]); ok && onlyNil {
